@@ -3,7 +3,7 @@
    around the *generated* scalar tests of Gen/G_validators.v, Gen/S_validators.v and
    Gen/G_slicing.v (regenerated from /repo on every run).  Definitions only. *)
 From Coq Require Import ZArith List Bool.
-From Verif Require Import Py PyExt PyValid G_slicing G_validators S_validators.
+From Verif Require Import Py PyExt PyValid G_slicing G_validators S_validators NpValid.
 Import ListNotations.
 Open Scope Z_scope.
 
@@ -128,3 +128,117 @@ Definition caxes_ok (ndim : Z) (ca : option (list Z)) : bool :=
               && negb (match l with [] => true | _ => false end)
               && forallb (fun a => (0 <=? a) && (a <? ndim)) l
   end.
+
+(* ================================================================= the modelled operations, uniformly
+   One constructor per public operation (argument class) whose validation is generated above:
+   vop_run = what the code's validator answers (None: accepts; Some e: raises e),
+   vop_np_accepts = what NumPy answers (Spec/NpValid.v). *)
+Inductive vop :=
+| MNone
+| MAxis (a ndim : Z)
+| MAxes (axes : list Z) (ndim : Z)
+| MPerm (axes : list Z) (ndim : Z)
+| MIndex (i dim : Z)
+| MReshape (size : Z) (sh : list Z)
+| MBroadcast (s1 s2 : list Z)
+| MBroadcastTo (s target : list Z)
+| MContract (ea eb : list Z)
+| MCooInit (ndata ncols nshape nrows : Z)
+| MCaxes (ndim : Z) (ca : option (list Z))
+| MDot1d (la lb : Z).
+
+Definition verdict {A} (r : res A) : option exc := match r with Ok _ => None | Raise e => Some e end.
+
+(* None: not modelled; Some None: the validator accepts; Some (Some e): it raises e *)
+Definition model_verdict (m : vop) : option (option exc) :=
+  match m with
+  | MNone => None
+  | MAxis a nd => Some (verdict (v_normalize_axis a nd))
+  | MAxes ax nd => Some (verdict (v_normalize_axes ax nd))
+  | MPerm ax nd => Some (verdict (v_transpose_axes ax nd))
+  | MIndex i d => Some (verdict (v_check_index i d))
+  | MReshape s sh => Some (verdict (v_reshape_check s sh))
+  | MBroadcast a b => Some (verdict (v_broadcast_shape false a b))
+  | MBroadcastTo a b => Some (verdict (v_broadcast_shape true a b))
+  | MContract a b => Some (verdict (v_tensordot_check a b))
+  | MCooInit a b c d => Some (verdict (v_coo_init a b c d))
+  | MCaxes nd ca => Some (verdict (v_check_caxes nd ca))
+  | MDot1d a b => Some (verdict (v_dot_1d_check a b))
+  end.
+
+(* NumPy's verdict on the same argument (Spec/NpValid.v); true = accepts *)
+Definition vop_np_accepts (m : vop) : bool :=
+  match m with
+  | MNone => true
+  | MAxis a nd => np_axis_ok a nd
+  | MAxes ax nd => forallb (fun a => np_axis_ok a nd) ax
+  | MPerm ax nd => np_perm_ok ax nd
+  | MIndex i d => np_index_ok i d
+  | MReshape s sh => np_reshape_ok s sh
+  | MBroadcast a b => match np_broadcast a b with Some _ => true | None => false end
+  | MBroadcastTo a b => match np_broadcast_to a b with Some _ => true | None => false end
+  | MContract a b => np_contract_ok a b
+  | MCooInit a b c d => negb (negb (c =? 0) && (negb (a =? b) || negb (c =? d)))
+  | MCaxes nd ca => caxes_ok nd ca
+  | MDot1d a b => a =? b
+  end.
+
+Definition clean (e : exc) : bool :=
+  match e with ValueError | IndexError | TypeError => true | _ => false end.
+
+(* ================================================================= call skeletons: semantics and the
+   static ordering check.  exec p t o: the skeleton p can run producing the event trace t and end
+   by falling through, returning, or raising (a validator rejected, or a `raise` was reached). *)
+From Coq Require String.
+Inductive ev := EVal (name : String.string) | EKer (name : String.string).
+Inductive outcome := Fall | Ret | Raised.
+
+Inductive exec : prog -> list ev -> outcome -> Prop :=
+| XSkip : exec PSkip [] Fall
+| XSeqGo a b t1 t2 o : exec a t1 Fall -> exec b t2 o -> exec (PSeq a b) (t1 ++ t2) o
+| XSeqStop a b t1 o : exec a t1 o -> o <> Fall -> exec (PSeq a b) t1 o
+| XValOk n : exec (PVal n) [EVal n] Fall
+| XValRej n : exec (PVal n) [EVal n] Raised
+| XKer n : exec (PKer n) [EKer n] Fall
+| XRaise : exec PRaise [] Raised
+| XReturn : exec PReturn [] Ret
+| XIfL a b t o : exec a t o -> exec (PIf a b) t o
+| XIfR a b t o : exec b t o -> exec (PIf a b) t o
+| XLoop0 b : exec (PLoop b) [] Fall
+| XLoopGo b t1 t2 o : exec b t1 Fall -> exec (PLoop b) t2 o -> exec (PLoop b) (t1 ++ t2) o
+| XLoopStop b t1 o : exec b t1 o -> o <> Fall -> exec (PLoop b) t1 o.
+
+Definition is_ker (e : ev) : bool := match e with EKer _ => true | EVal _ => false end.
+Definition no_kernel (t : list ev) : Prop := forallb (fun e => negb (is_ker e)) t = true.
+
+(* abstract run: K = "a kernel may already have executed".  Bad: a validator call or a raise can be
+   reached with K; Stop: every path has returned / raised; Go K': may fall through with K'. *)
+Inductive chk_res := Bad | Stop | Go (k : bool).
+
+Definition chk_join (x y : chk_res) : chk_res :=
+  match x, y with
+  | Bad, _ | _, Bad => Bad
+  | Stop, r | r, Stop => r
+  | Go a, Go b => Go (a || b)
+  end.
+
+Fixpoint chk (p : prog) (K : bool) : chk_res :=
+  match p with
+  | PSkip => Go K
+  | PSeq a b => match chk a K with Bad => Bad | Stop => Stop | Go K1 => chk b K1 end
+  | PVal _ => if K then Bad else Go false
+  | PKer _ => Go true
+  | PRaise => if K then Bad else Stop
+  | PReturn => Stop
+  | PIf a b => chk_join (chk a K) (chk b K)
+  | PLoop b =>
+    match chk b K with
+    | Bad => Bad
+    | Stop => Go K
+    | Go K1 => if Bool.eqb K1 K then Go K
+               else match chk b K1 with Bad => Bad | _ => Go K1 end
+    end
+  end.
+
+Definition validators_first (p : prog) : bool :=
+  match chk p false with Bad => false | _ => true end.
